@@ -471,11 +471,14 @@ package render
 // ---- {{ expr }} (C08, C07, C20) ---------------------------------------------------------
 // writeObject prints a value to the writer it is given and nowhere else; nil prints nothing.
 //@ func render.writeObject
-//@ unverified
 //@ props C08 C18 C20 C01
+//@ panics nothing
 //@ requires args: w != nil && (is(w, *render.trimWriter) ==> valid(as(w, *render.trimWriter)))
-//@ assigns writer
+//@ assigns writer, alloc S$Int, alloc S$Val
 //@ ensures onlyw: forall(x, "Val", x != w && x != wsink(w) && !newbuf(x) && !is(x, *render.trimWriter) ==> wtotal(x) == old(wtotal(x)))
+//@ ensures nilPrintsNothing: values.ToLiquid(value) == nil ==> result == nil && forall(x, "Val", wtotal(x) == old(wtotal(x)))
+//@ loop 1 invariant onlyw: forall(x, "Val", x != w && x != wsink(w) && !newbuf(x) && !is(x, *render.trimWriter) ==> wtotal(x) == old(wtotal(x)))
+//@ loop 1 invariant writer: is(w, *render.trimWriter) ==> valid(as(w, *render.trimWriter))
 
 // The object's expression is evaluated once; an evaluation error, or a nil value in
 // strict-variables mode, is an error located at the object; otherwise exactly that value
